@@ -1162,6 +1162,9 @@ class DesignSpace:
             out[..., norm_inds] -= self.__lower_bounds_array[norm_inds]
 
         if isinstance(out, sparse_classes):
+            # The indices of a CSR matrix are the column indices of its coefficients.
+            if out.format != "csr":
+                out = out.tocsr()
             # Construct a mask to only scale the required columns
             column_mask = isin(out.indices, norm_inds)
             # Scale the corresponding coefficients
@@ -1313,6 +1316,9 @@ class DesignSpace:
             out = out.astype(current_x_dtype, copy=False)
 
         if isinstance(out, sparse_classes):
+            # The indices of a CSR matrix are the column indices of its coefficients.
+            if out.format != "csr":
+                out = out.tocsr()
             # Construct a mask to only scale the required columns
             column_mask = isin(out.indices, norm_inds)
             # Scale the corresponding coefficients
